@@ -12,8 +12,18 @@ func init() { register("C07", c07) }
 
 // instrBefore reports whether a is executed before b on every path reaching b (a dominates b).
 func instrBefore(a, b ssa.Instruction) bool {
-	if a == nil || b == nil || a.Parent() != b.Parent() {
+	if a == nil || b == nil {
 		return false
+	}
+	if a.Parent() != b.Parent() {
+		// look through transparent helpers (newfn.go): an instruction inside one stands where its call stands
+		a, b = liftInstr(a), liftInstr(b)
+		if a == nil || b == nil || a.Parent() != b.Parent() {
+			return false
+		}
+		if a == b {
+			return false
+		}
 	}
 	if a.Block() == b.Block() {
 		for _, in := range a.Block().Instrs {
@@ -141,9 +151,11 @@ func c07(c *ctx) {
 		r.Unk("R1/ApplyTransactions/exec-wrap", c.p.Pos(applyTxs.Pos()), "could not identify the per-transaction TxnWrap whose transaction is flushed on success")
 	} else {
 		applyCalls := callsIn(applyTxs, false, applyTx)
+		// (storesTo / callsIn look through transparent helpers, liftValue maps their parameters to the caller's arguments)
 		for _, in := range storesTo(applyTxs, slashF) {
-			def := defining(in.Val)
-			p := c.p.path(in.Val)
+			val := liftValue(in.Val)
+			def := defining(val)
+			p := c.p.path(val)
 			ok := strings.HasSuffix(p, ".slashTracker.Clone()") && def != nil && len(applyCalls) > 0 && instrBefore(def, applyCalls[0])
 			r.Check(ok, "R1/ApplyTransactions/slashTracker-restore-value", c.p.Pos(in.Pos()), "restored value "+p+" is cloned before the transaction executes",
 				"the slash tracker is restored from "+p+", which is not a Clone() taken before ApplyTransaction: slashes recorded by a failed transaction survive")
@@ -155,8 +167,7 @@ func c07(c *ctx) {
 			if !instrBefore(execWrap, cs) {
 				continue // pre-pass, checked in R2
 			}
-			arg := argOf(cs, 0)
-			src := stripAssert(arg)
+			src := stripLift(argOf(cs, 0))
 			p := c.p.path(src)
 			def := defining(src)
 			ok := p == "$0.Store()" && def != nil && instrBefore(def, execWrap)
@@ -195,7 +206,7 @@ func c07(c *ctx) {
 		})
 		// every SetStore argument (incl. deferred) is a store read from s.Store() before some wrap
 		for _, ss := range callsIn(f, false, setStore) {
-			src := stripAssert(argOf(ss, 0))
+			src := stripLift(argOf(ss, 0))
 			p := c.p.path(src)
 			def := defining(src)
 			okv := p == "$0.Store()" && def != nil
@@ -305,11 +316,13 @@ func (c *ctx) ruleOversizeRolledBack(R string) {
 // storesTo returns the stores into field fv in f.
 func storesTo(f *ssa.Function, fv *types.Var) []*ssa.Store {
 	var out []*ssa.Store
-	instrs(f, func(in ssa.Instruction) {
-		if v, _, _ := storeField(in); v != nil && v == fv {
-			out = append(out, in.(*ssa.Store))
-		}
-	})
+	for _, g := range bodyFuncs(f, false) {
+		instrs(g, func(in ssa.Instruction) {
+			if v, _, _ := storeField(in); v != nil && v == fv {
+				out = append(out, in.(*ssa.Store))
+			}
+		})
+	}
 	return out
 }
 
